@@ -220,8 +220,33 @@ def expand(chunk, repo):
     elif kind == 'list':
         for s in chunk[1]:
             yield s
+    elif kind == 'gram':
+        for s in grammar_sentences(repo, chunk[1])[chunk[2]::chunk[3]]:
+            yield s
     else:
         raise ValueError(kind)
+
+
+_GS = {}
+
+
+def grammar_sentences(repo, version):
+    """Programs derived from the grammar file of `version`: one per automaton arc of every rule reachable from file_input and
+    one per (arc, rule that uses the arc's rule) -- every construct of the language in every context (C06's generator)."""
+    if version not in _GS:
+        from harness import grammar_oracle as GO
+        g = GO.spec_grammar(repo, version)
+        dv = GO.Deriver(g)
+        import itertools
+        out = []
+        seen = set()
+        for _, tree in itertools.chain(dv.sentences(['file_input']), dv.sentences_in_sites(['file_input'])):
+            text = GO.render(tree, 0)[0]
+            if text not in seen:
+                seen.add(text)
+                out.append(text)
+        _GS[version] = out
+    return _GS[version]
 
 
 def nesting_programs():
@@ -284,6 +309,9 @@ def plan(alpha_name, n, rnd, tpl, seed, repo, files=True, nchunks=64, extra=''):
             chunks.append(('list', np_[i:i + 8]))
     chunks.append(('list', list(REGRESSION_PROGRAMS)))
     if files:
+        for gv in ('3.8', '3.14'):
+            for k in range(4):
+                chunks.append(('gram', gv, k, 4))
         fs = corpus_files(repo)
         for i in range(0, len(fs), 4):
             chunks.append(('files', fs[i:i + 4]))
